@@ -76,4 +76,9 @@ func init() {
 			{"proxy.currentNATType", `^snowflake\.go$`, `currentNATType`, ""},
 			{"proxy.webRTCConn.dc", `^(webrtcconn|snowflake)\.go$`, `(c|conn)\.dc`, ""},
 		}})
+	registerAcc(accPkg{dir: "common/event", label: "event", types: []string{"eventBus"}, exported: true, ctors: `^(NewSnowflakeEventDispatcher)$`,
+		aliases: []lockAlias{{`^bus\.go$`, `e\.lock`, "event.eventBus.lock"}},
+		vars: []accVar{
+			{"event.eventBus.listeners", `^bus\.go$`, `e\.listeners`, ""},
+		}})
 }
